@@ -180,18 +180,41 @@ def _stat_chunk(arg):
     if tmax is not None:
         kw["tmax"] = tmax
     obs = {}
-    for _ in range(nruns):
-        sim = f(G, tau * common.RATE_UNIT, gam * common.RATE_UNIT, **kw)
-        st = sim.get_statuses(nodelist=nodes, time=T)
-        k = tuple(st[u] for u in nodes)
-        obs[k] = obs.get(k, 0) + 1
+    try:
+        for _ in range(nruns):
+            sim = f(G, tau * common.RATE_UNIT, gam * common.RATE_UNIT, **kw)
+            st = sim.get_statuses(nodelist=nodes, time=T)
+            k = tuple(st[u] for u in nodes)
+            obs[k] = obs.get(k, 0) + 1
+    except Exception as ex:
+        return "%s: %r" % (type(ex).__name__, ex)
     return obs
+
+
+def law_at_T(chk, entry, sis, case, per, label):
+    """the law of the full node-state vector at time T of `entry` against p0 expm(QT), Q assembled from the
+    TLC-emitted NetEpiOne transitions; returns (p value, detail, N, observed, expected)"""
+    from harness import master
+    (n, w, g, tau, gam, st0, T, weighted) = case
+    trans, res = master.emit_one(n, w, g, tau, gam, sis)
+    chk.add_tlc("NetEpiOne generator for the law layer n=%d (%s)" % (n, label), res)
+    exp = master.distribution_at(trans, n, sis, st0, T)
+    args = [(entry, n, w, g, tau, gam, st0, T, (T + 0.5) if sis else None, per, chk.seed * 1000 + k, weighted) for k in range(16)]
+    obs = {}
+    for o in pool_map(_stat_chunk, args):
+        if isinstance(o, str):
+            return 0.0, "the seeded run raised " + o, per * 16, {}, exp
+        for k, v in o.items():
+            obs[k] = obs.get(k, 0) + v
+    N = per * 16
+    pval, detail = master.g_test(obs, exp, N)
+    chk.cov["evaluations"] += N
+    return pval, detail, N, obs, exp
 
 
 def statistical_part(chk, sis):
     """disclosed statistical layer: the law of the full node-state vector at time T of the event-driven simulators
     against p0 expm(QT) with Q assembled from the TLC-emitted NetEpi transitions; rejection threshold p < 1e-9"""
-    from harness import master
     entry = "fast_SIS" if sis else "fast_SIR"
     cases = [
         (4, (1, 0, 2, 1, 0, 1), (1, 2, 1, 1), 2, 2, ("I", "S", "S", "S"), 0.75, True),
@@ -202,18 +225,9 @@ def statistical_part(chk, sis):
     if not sis:
         cases.append((4, (1, 1, 0, 1, 0, 1), (1, 1, 2, 1), 2, 2, ("I", "S", "R", "S"), 0.9, True))   # an initially recovered node
     per = 2500 if chk.tier == "quick" else 20000
-    for (n, w, g, tau, gam, st0, T, weighted) in cases:
-        trans, res = master.emit_one(n, w, g, tau, gam, sis)
-        chk.add_tlc("NetEpiOne generator for the statistical layer n=%d" % n, res)
-        exp = master.distribution_at(trans, n, sis, st0, T)
-        args = [(entry, n, w, g, tau, gam, st0, T, (T + 0.5) if sis else None, per, chk.seed * 1000 + k, weighted) for k in range(16)]
-        obs = {}
-        for o in pool_map(_stat_chunk, args):
-            for k, v in o.items():
-                obs[k] = obs.get(k, 0) + v
-        N = per * 16
-        pval, detail = master.g_test(obs, exp, N)
-        chk.cov["evaluations"] += N
+    for case in cases:
+        (n, w, g, tau, gam, st0, T, weighted) = case
+        pval, detail, N, obs, exp = law_at_T(chk, entry, sis, case, per, "fixed case")
         chk.part(entry + " statistical layer", runs=N, cases=1)
         chk.note("%s state-at-T law vs master equation (n=%d, %s path): p=%.3g (%s, N=%d)" % (entry, n, "weighted" if weighted else "unweighted", pval, detail, N))
         if pval < 1e-9:
@@ -222,6 +236,60 @@ def statistical_part(chk, sis):
                           {"case": [n, w, g, tau, gam, st0, T, weighted], "observed": {"".join(k): v for k, v in obs.items()},
                            "expected": {"".join(k): v * N for k, v in exp.items() if v > 0}})
     chk.assumptions.append("the law of %s at time T is compared with the master equation statistically (G-test, rejection threshold 1e-9); everything else in this check is exact" % entry)
+
+
+# Problems of the draw-protocol layer that say "this run is not a run of the chain at all" are violations as they
+# stand; every other disagreement only says that the implementation consumes its random numbers differently from the
+# implementation-shaped specification (FastSISMarkov / the binomial protocol of fast_SIR) - which a law-preserving
+# refactoring may legitimately do.  Those are decided at the level the property is stated at: the law.
+DIRECT = ("history-invalid",)
+
+
+def escalate(chk, sis, entry, mismatches, case_of, call=None):
+    """mismatches: {(kind, class): [(scenario index, detail, scenario)]}.  For each class the law of the simulator at
+    a time T is compared with the master equation on (up to K of) the very scenarios that disagreed; a violation is
+    reported iff the law is rejected."""
+    K = 3 if chk.tier == "quick" else 6
+    per = 6000 if chk.tier == "quick" else 25000
+    done = {}
+    for (kind, cls), items in sorted(mismatches.items()):
+        if kind in DIRECT or kind.startswith("exception:"):
+            for (i, detail, scn) in items[:3]:
+                chk.violation("%s|%s|%s" % (entry, kind, cls), detail + " [scenario %d]" % i, {"scenario": scn})
+            continue
+        worst = None
+        tried = 0
+        for (i, detail, scn) in items:
+            case = case_of(scn)
+            if case is None:
+                continue
+            ck = repr(case)
+            if ck not in done:
+                done[ck] = law_at_T(chk, call or entry, sis, case, per, "escalated scenario %d" % i)
+            pval, d2, N, obs, exp = done[ck]
+            tried += 1
+            if worst is None or pval < worst[0]:
+                worst = (pval, d2, N, obs, exp, i, detail, scn, case)
+            if pval < 1e-9 or tried >= K:
+                break
+        if worst is None:
+            raise common.MachineryFailure("%s: draw protocol differs (%s) and no disagreeing scenario could be decided at the law level" % (entry, kind))
+        (pval, d2, N, obs, exp, i, detail, scn, case) = worst
+        chk.part(entry + " protocol disagreement decided at the law level", runs=N * tried, cases=tried)
+        if pval < 1e-9:
+            chk.violation("%s|%s|%s" % (entry, kind, cls),
+                          "%s [scenario %d]; and the law of the node-state vector at T=%r on this scenario differs from the master equation (G-test p=%.3g, %s, N=%d)"
+                          % (detail, i, case[6], pval, d2, N),
+                          {"scenario": scn, "case": list(case), "observed": {"".join(k): v for k, v in obs.items()},
+                           "expected": {"".join(k): v * N for k, v in exp.items() if v > 0}})
+        else:
+            chk.note("%s: the implementation's draw protocol differs from the implementation-shaped specification on %d scenario(s) (%s: %s [scenario %d]) "
+                     "but the law at time T agrees with the master equation on %d of them (smallest p=%.3g, N=%d each): the protocol specification is out of "
+                     "sync with the code, the property (a statement about the law) is not violated" % (entry, len(items), kind, detail[:160], i, tried, pval, N))
+
+
+def _tri(mat, n):
+    return tuple(int(mat[a][b]) for a in range(n) for b in range(a + 1, n))
 
 
 def _fsir(i):
@@ -251,6 +319,7 @@ def fast_part(chk, sis, EoN):
             refs[r["idx"] - 1] = r
         _F.update(scn=scn, refs=refs)
         nrun = 0
+        mism = {}
         for i, probs in enumerate(pool_map(_fsir, range(len(scn)))):
             if probs is None:
                 continue
@@ -258,10 +327,14 @@ def fast_part(chk, sis, EoN):
             chk.cov["evaluations"] += 1
             chk.cov["traces_validated_against_impl"] += 1
             for (kind, detail) in probs:
-                chk.violation("fast_SIR(unweighted path)|%s|" % kind, detail + " [scenario %d]" % i, {"scenario": scn[i]})
+                mism.setdefault((kind, ""), []).append((i, detail, scn[i]))
         chk.part("fast_SIR draw protocol", scenarios=nrun)
         if nrun < len(scn) // 3:
             raise common.MachineryFailure("fast_SIR protocol: only %d of %d scenarios usable" % (nrun, len(scn)))
+
+        def case_of(sc):
+            return (sc["n"], _tri(sc["adj"], sc["n"]), (1,) * sc["n"], 1, 2, tuple(sc["init"]), 0.8, False)
+        escalate(chk, sis, "fast_SIR(unweighted path)", mism, case_of, call="fast_SIR")
     else:
         scn = fast_sis.scenarios(chk.seed, 1200 if chk.tier == "quick" else 12000)
         res = fast_sis.model_check(scn)
@@ -274,7 +347,7 @@ def fast_part(chk, sis, EoN):
         refs = {r[1] - 1: (r[2], r[3], r[4]) for r in res.printed("REF")}
         _F.update(scn=scn, refs=refs)
         skipped = 0
-        redraws = 0
+        mism = {}
         for i, probs in enumerate(pool_map(_fsis, range(len(scn)))):
             chk.cov["evaluations"] += 1
             if probs and probs[0][0] == "tied-skip":
@@ -284,8 +357,14 @@ def fast_part(chk, sis, EoN):
             if len(refs[i][0]) >= 3:
                 chk.cov["distinct_nontrivial"] += 1
             for (kind, detail) in probs:
-                chk.violation("fast_SIS|%s|%s" % (kind, "weighted" if scn[i]["weighted"] else "unweighted"), detail + " [scenario %d]" % i, {"scenario": scn[i]})
+                mism.setdefault((kind, "weighted" if scn[i]["weighted"] else "unweighted"), []).append((i, detail, scn[i]))
         chk.part("fast_SIS draw protocol", scenarios=len(scn), skipped_because_of_ties=skipped)
+
+        def case_of(sc):
+            if sc["tau"] == 0:
+                return None
+            return (sc["n"], _tri(sc["w"], sc["n"]), tuple(sc["g"]), sc["tau"], sc["gam"], tuple(sc["init"]), 0.6, bool(sc["weighted"]))
+        escalate(chk, sis, "fast_SIS", mism, case_of)
     statistical_part(chk, sis)
 
 
